@@ -27,6 +27,22 @@ Theorem C17_release_then_restore : forall shared w0 r t, tracker_ok shared r t -
 Proof. exact release_then_restore. Qed.
 Print Assumptions C17_release_then_restore.
 
+(* the same, in the vocabulary of the real-run Spec: an Exec is one step of the abstract mode machine
+   (Spec.Modes.hist_apply ... HExec), which is what the check evaluates on the real output after every Exec *)
+Theorem C17_exec_is_a_mode_step : forall shared w0 r t, tracker_ok shared r t ->
+  let '(r1, toks1, w, ok1) := release BTGen.Lifecycle.release_terminal_calls dm w0 r in
+  let '(r2, toks2, ok2) := restore_term BTGen.Lifecycle.restore_terminal_calls dm w r1 in
+  vt_modes (vt_run shared t toks1) = defaults /\
+  vt_modes (vt_run shared (vt_run shared t toks1) toks2) = hist_apply (vt_modes t) HExec.
+Proof.
+  intros shared w0 r t H. pose proof (release_then_restore shared w0 r t H) as P.
+  destruct (release BTGen.Lifecycle.release_terminal_calls dm w0 r) as [[[r1 toks1] w] ok1].
+  destruct P as [_ [_ [Hd [_ P]]]].
+  destruct (restore_term BTGen.Lifecycle.restore_terminal_calls dm w r1) as [[r2 toks2] ok2].
+  destruct P as [_ [_ Hm]]. split; [exact Hd|]. rewrite Hm. reflexivity.
+Qed.
+Print Assumptions C17_exec_is_a_mode_step.
+
 (* non-vacuity: alt screen, cell-motion mouse, focus; the cursor shown by a
    command.  Released: defaults.  Restored: alt, paste and focus are back, the
    cursor is hidden, the mouse stays off; per-buffer cursor visibility *)
